@@ -129,7 +129,7 @@ func vh_C02_GenerateKey() {
 	vCutSign()
 	pub, priv, err := GenerateKey(vReader("entropy"))
 	vReach("GenerateKey returned")
-	vAssert(vReaderCalls() == 1 && vReaderCallSize(0) == 32, "exactly one 32-byte read")
+	vAssert(vReaderCalls() == 1 && vReaderCallSize(0) == 32 && vReaderCallIsReadFull(0), "exactly one 32-byte io.ReadFull")
 	if vReaderFailed(0) {
 		vAssert(!vIsNilErr(err) && pub == nil && priv == nil, "reader error => (nil, nil, err)")
 	} else {
